@@ -151,9 +151,23 @@ gen_gradient (gen_t *g, int slot)
     g->s[slot].used = 1; g->s[slot].kind = kind; g->s[slot].w = g->s[slot].h = 100; g->s[slot].refs = 1; g->s[slot].has_alpha = -1; g->s[slot].alpha_of = 0;
 }
 
+/* a yuy2 or yv12 source: read-only by nature (pixman cannot store these formats) */
+void
+gen_yuv (gen_t *g, int slot)
+{
+    int64_t a[12];
+    int n = prefix (g, a), planar = (int)rng_n (R, 2), w = (int)rng_range (R, 1, 24), h = (int)rng_range (R, 1, 10);
+    a[n++] = slot; a[n++] = planar; a[n++] = w; a[n++] = h; a[n++] = rng_chance (R, 1, 2) ? 0 : rng_n (R, 4); a[n++] = rng_n (R, 16);
+    a[n++] = rng_n (R, 16); a[n++] = (int64_t)(rng_u64 (R) >> 16);
+    sc_addv (g->sc, MOP_BITS_YUV, n, a);
+    g->s[slot].used = 1; g->s[slot].kind = MOP_BITS; g->s[slot].w = 2 * w; g->s[slot].h = 2 * h; g->s[slot].fmt_idx = 0;
+    g->s[slot].bpp = planar ? 12 : 16; g->s[slot].refs = 1; g->s[slot].has_alpha = -1; g->s[slot].alpha_of = 0;
+}
+
 void
 gen_source (gen_t *g, int slot, int fclass, int maxdim)
 {
+    if (fclass == FC_ANY && rng_chance (R, 1, 24)) { gen_yuv (g, slot); return; }
     switch (rng_n (R, 10))
     {
     case 0: gen_solid (g, slot); break;
@@ -562,7 +576,7 @@ gen_glyphs (gen_t *g, int c, int src, int dst)
     int n = prefix (g, a), cnt = (int)rng_range (R, 1, 8), i;
     int dw = g->s[dst].w, dh = g->s[dst].h;
     a[n++] = rng_chance (R, 1, 2) ? (rng_chance (R, 1, 2) ? 3 : 12) : (int64_t)rng_n (R, sim_n_ops);
-    a[n++] = src; a[n++] = dst; a[n++] = rng_n (R, 2); a[n++] = rng_n (R, 4);
+    a[n++] = src; a[n++] = dst; a[n++] = rng_n (R, 2); a[n++] = rng_chance (R, 2, 3) ? rng_n (R, 4) : rng_n (R, 10);
     a[n++] = rng_range (R, -2, 5); a[n++] = rng_range (R, -2, 5);            /* src x,y */
     a[n++] = rng_range (R, -2, 5); a[n++] = rng_range (R, -2, 5);            /* mask x,y */
     a[n++] = rng_range (R, -2, 5); a[n++] = rng_range (R, -2, 5);            /* dest x,y */
